@@ -160,6 +160,15 @@ pub fn expand(v: Variant, attr: &str, item: &str) -> TokenStream {
     }
 }
 
+pub fn expand_ts(v: Variant, a: TokenStream, i: TokenStream) -> TokenStream {
+    match v {
+        Variant::Entrait => crate::entrait(a, i),
+        Variant::Export => crate::entrait_export(a, i),
+        Variant::Unimock => crate::entrait_unimock(a, i),
+        Variant::ExportUnimock => crate::entrait_export_unimock(a, i),
+    }
+}
+
 /// `Some(message)` if the stream is (or contains at top level) a `compile_error!` invocation
 pub fn compile_error_of(t: &TokenStream) -> Option<String> {
     let v: Vec<TokenTree> = t.clone().into_iter().collect();
